@@ -2,6 +2,8 @@
    N / positive stay the extracted inductive types *)
 Require Extraction.
 Require Import ExtrOcamlBasic.
-From MS Require Import Codec.Text.
+From MS Require Import Codec.Text Codec.Utf8.
 Extraction Language OCaml.
-Extraction "codec_model.ml" split load emit_bin emit_text transpile.
+Definition utf8_encode := Utf8.encode.
+Definition utf8_decode := Utf8.decode.
+Extraction "codec_model.ml" split load emit_bin emit_text transpile utf8_encode utf8_decode.
